@@ -18,6 +18,8 @@ Steps
   D  mesh traces: the real table / lookup / TetrahedronMesh / dos kernel on
      integer fields are judged by TLC (TetraMeshTrace).
   E  API sessions on spring-model crystals (DosApi).
+  F  memory layouts / containers of the arrays handed to the public tetrahedron
+     functions: the weights depend on the values only (TetrahedronLayoutTrace).
 """
 from __future__ import annotations
 
@@ -299,15 +301,16 @@ def run(ctx):
     import time
     from harness import c11_steps
     K = T.Kernels()
-    steps = os.environ.get("C11_STEPS", "ABCDE")
+    from harness import c11_layout
+    steps = os.environ.get("C11_STEPS", "ABCDEF")
     table = dict(A=lambda: step_a(ctx, K), B=lambda: step_b(ctx, K), C=lambda: c11_steps.step_c(ctx),
-                 D=lambda: c11_steps.step_d(ctx), E=lambda: c11_steps.step_e(ctx))
-    for name in "ABCDE":
+                 D=lambda: c11_steps.step_d(ctx), E=lambda: c11_steps.step_e(ctx), F=lambda: c11_layout.step_f(ctx))
+    for name in "ABCDEF":
         if name in steps:
             t0 = time.time()
             table[name]()
             ctx.extra.setdefault("step_wall_s", {})[name] = round(time.time() - t0, 1)
-    if steps != "ABCDE":
+    if steps != "ABCDEF":
         print("C11: only steps %s were run (C11_STEPS)" % steps)
     print("C11 step times:", ctx.extra.get("step_wall_s"))
     ctx.assumptions.append("frequencies of spring-model crystals are real numbers: at API level the named comparisons "
